@@ -876,46 +876,127 @@ def r5_cache_copies(ctx):
 
 
 # ------------------------------------------------------------------------------------------ R6
+def _cache_slices(fn):
+    """[(node, CUR)] statements/tests that read the next slice: CUR := list(islice(self._iter, n)) (walrus or assignment)"""
+    out = []
+    for x in ast.walk(fn):
+        if isinstance(x, ast.NamedExpr) and "islice(self._iter" in unparse(x.value):
+            out.append((x, unparse(x.target)))
+        if isinstance(x, ast.Assign) and len(x.targets) == 1 and isinstance(x.targets[0], ast.Name) and "islice(self._iter" in unparse(x.value):
+            out.append((x, x.targets[0].id))
+    return out
+
+
 def r6_replay_buffer(ctx, rule="C04.R6"):
     """pipes.Cache is the one by-design cross-read state: its protocol must keep 'buffer + saved iterator' equal to the source."""
-    ctx.rule(rule, "pipes.Cache: items are appended to the buffer before they are handed out, and the saved iterator is dropped "
-                       "(= 'buffer complete') only on the path where the source was exhausted -- never on an abandoned or failing read")
+    ctx.rule(rule, "pipes.Cache: items are appended to the buffer before they are handed out; the saved iterator is dropped with the buffer kept "
+                       "(= 'buffer complete') only on the path where a slice came back empty -- never on an abandoned read; a source that fails "
+                       "part-way drops buffer and iterator together (the next read starts over) and the error propagates")
     from ..cfg import CFG
     fn = ctx.fn(PF, "Cache.filter")
     g = CFG(fn)
     reach = g.reachable()
-    done = [n.id for n in g.nodes if n.id in reach and n.kind == "stmt" and isinstance(n.ast, ast.Assign) and any(is_self_attr(t, "_iter") for t in n.ast.targets)
-            and isinstance(n.ast.value, ast.Constant) and n.ast.value.value is None]
+
+    def none_store(n, attr):
+        if n.kind != "stmt" or not isinstance(n.ast, ast.Assign):
+            return False
+        pairs = []
+        for t in n.ast.targets:
+            if isinstance(t, ast.Tuple) and isinstance(n.ast.value, ast.Tuple) and len(t.elts) == len(n.ast.value.elts):
+                pairs += list(zip(t.elts, n.ast.value.elts))
+            else:
+                pairs.append((t, n.ast.value))
+        return any(is_self_attr(t, attr) and isinstance(v, ast.Constant) and v.value is None for t, v in pairs)
+    iter_none = [n for n in g.nodes if n.id in reach and none_store(n, "_iter")]
+    resets = [n for n in iter_none if none_store(n, "_cache")]
+    done = [n for n in iter_none if not none_store(n, "_cache")]
     ctx.floor(rule, "'buffer complete' stores in pipes.Cache.filter", len(done), 1)
-    # nodes reachable after taking an abandon / exception edge
-    after_abnormal = set()
-    todo = []
-    for a in reach:
-        for b, l in g.succ[a]:
-            if l in ("abandon", "exc") and b not in after_abnormal:
-                after_abnormal.add(b)
-                todo.append(b)
+    slices = _cache_slices(fn)
+    ctx.floor(rule, "slice reads of the saved iterator", len(slices), 1)
+    curs = {c for _, c in slices}
+    # nodes reachable after taking an abandon edge
+    after_abandon, todo = set(), []
+    for a_ in reach:
+        for b_, l in g.succ[a_]:
+            if l == "abandon" and b_ not in after_abandon:
+                after_abandon.add(b_)
+                todo.append(b_)
     while todo:
-        a = todo.pop()
-        for b, l in g.succ[a]:
-            if b not in after_abnormal:
-                after_abnormal.add(b)
-                todo.append(b)
+        a_ = todo.pop()
+        for b_, l in g.succ[a_]:
+            if b_ not in after_abandon:
+                after_abandon.add(b_)
+                todo.append(b_)
+
+    def witness_edge(a_, l):
+        """the edge on which a slice is known to be empty"""
+        n = g.nodes[a_]
+        if n.kind != "test" or n.ast is None:
+            return False
+        t = n.ast
+        if isinstance(t, ast.NamedExpr) and unparse(t.target) in curs:
+            return l == "false"
+        if isinstance(t, ast.UnaryOp) and isinstance(t.op, ast.Not) and unparse(t.operand) in curs:
+            return l == "true"
+        if isinstance(t, ast.Name) and t.id in curs:
+            return l == "false"
+        if isinstance(t, ast.Compare) and unparse(t) in {f"{c} == []" for c in curs} | {f"len({c}) == 0" for c in curs}:
+            return l == "true"
+        return False
+    # reachability from entry without the witness edges and without exception/abandon edges
+    seen, todo = {g.entry}, [g.entry]
+    while todo:
+        a_ = todo.pop()
+        for b_, l in g.succ[a_]:
+            if l in ("exc", "abandon") or witness_edge(a_, l) or b_ in seen:
+                continue
+            seen.add(b_)
+            todo.append(b_)
     for d in done:
-        ctx.ob(rule, PF, "Cache.filter", g.nodes[d].ast, "the buffer is marked complete only after the source iterator was exhausted (not when a read is abandoned or fails)",
-               d not in after_abnormal, detail=None if d not in after_abnormal else {"note": "reachable after an abandon/exception edge (e.g. inside a finally)"})
-        # and it is preceded by the exhaustion of the while loop
-        wl = [x for x in walk_shallow(fn) if isinstance(x, ast.While) and "islice(self._iter" in unparse(x.test)]
-        ok = len(wl) == 1 and g.nodes[d].ast.lineno > wl[0].end_lineno and not any(isinstance(x, ast.Break) for x in walk_shallow(wl[0]))
-        ctx.ob(rule, PF, "Cache.filter", g.nodes[d].ast, "completion follows the loop that drains the saved iterator (which has no break)", ok, stmt="complete after drain loop")
+        ctx.ob(rule, PF, "Cache.filter", d.ast, "the buffer is marked complete only after the source iterator was exhausted (not when a read is abandoned or fails)",
+               d.id not in after_abandon, detail=None if d.id not in after_abandon else {"note": "reachable after an abandon edge (e.g. inside a finally)"})
+        ctx.ob(rule, PF, "Cache.filter", d.ast, "completion is reached only through the edge on which a slice of the saved iterator came back empty", d.id not in seen,
+               stmt="complete after drain loop")
+    # failure of the source while a slice is read
+    for x, cur in slices:
+        nodes = [n for n in g.nodes if n.id in reach and n.ast is not None and (n.ast is x or any(y is x for y in ast.walk(n.ast)))]
+        for n in nodes[:1]:
+            # follow the exception edge(s) of the slice read: every path to the raising exit passes a reset of buffer and iterator
+            bad_path = None
+            first = [b_ for b_, l in g.succ[n.id] if l == "exc"]
+            seen2, todo2 = set(first), list(first)
+            prev = {b_: n.id for b_ in first}
+            reset_ids = {r.id for r in resets}
+            while todo2:
+                a_ = todo2.pop(0)
+                if a_ in reset_ids:
+                    continue
+                if a_ == g.exit_raise:
+                    bad_path = a_
+                    break
+                for b_, l in g.succ[a_]:
+                    if b_ not in seen2:
+                        seen2.add(b_)
+                        prev[b_] = a_
+                        todo2.append(b_)
+            ctx.ob(rule, PF, "Cache.filter", x, "a source that fails while a slice is read drops the partial buffer together with the dead iterator before the error propagates "
+                   "(otherwise the next read completes a truncated buffer)", bool(first) and bad_path is None, stmt="failing source resets the cache")
+    for r in resets:
+        hs = [a_ for a_ in ancestors(r.ast) if isinstance(a_, ast.ExceptHandler)]
+        ok = bool(hs) and any(isinstance(y, ast.Raise) and y.exc is None for y in walk_shallow(hs[0]))
+        ctx.ob(rule, PF, "Cache.filter", r.ast, "buffer and iterator are dropped together only in a handler that re-raises", ok, stmt="reset in re-raising handler")
+    # buffered before yielded
     for lp in [x for x in walk_shallow(fn) if isinstance(x, ast.While)]:
         ext = [x for x in lp.body if isinstance(x, ast.Expr) and isinstance(x.value, ast.Call) and unparse(x.value.func) == "self._cache.extend"]
         ys = [x for x in lp.body if isinstance(x, ast.Expr) and isinstance(x.value, (ast.Yield, ast.YieldFrom))]
-        ok = len(ext) == 1 and len(ys) == 1 and lp.body.index(ext[0]) < lp.body.index(ys[0]) and unparse(ext[0].value.args[0]) == unparse(ys[0].value.value)
+        ok = len(ext) == 1 and len(ys) == 1 and lp.body.index(ext[0]) < lp.body.index(ys[0]) and unparse(ext[0].value.args[0]) == unparse(ys[0].value.value) \
+            and unparse(ys[0].value.value) in curs
         ctx.ob(rule, PF, "Cache.filter", lp, "a slice is buffered before it is yielded (an abandoned read loses nothing that was taken from the source)", ok, stmt="buffer before yield")
     first_iter = [x for x in walk_shallow(fn) if isinstance(x, ast.Assign) and any(is_self_attr(t, "_iter") for t in x.targets) and unparse(x.value) == "iter(items)"]
     ok = len(first_iter) == 1 and any("self._iter is None and self._cache is None" == unparse(t) and p for t, p in guards_of(first_iter[0], fn))
-    ctx.ob(rule, PF, "Cache.filter", first_iter[0] if first_iter else fn, "the source is opened once, on the very first read", ok, stmt="open source once")
+    ctx.ob(rule, PF, "Cache.filter", first_iter[0] if first_iter else fn, "the source is opened once per generation of the buffer (first read, or first read after a failed one)", ok, stmt="open source once")
+    replays = [x for x in walk_shallow(fn) if isinstance(x, ast.YieldFrom) and unparse(x.value) == "self._cache"]
+    ctx.ob(rule, PF, "Cache.filter", fn, "every read first replays the buffer (complete: only the buffer; incomplete: the buffer, then the rest of the saved iterator)", len(replays) == 2, stmt="replay buffer first")
 
 
 # ------------------------------------------------------------------------------------------ R7
@@ -941,6 +1022,8 @@ def r7_held_learners(ctx, fam, rule="C04.R7"):
 
 
 CONTROLS = [
+    ("failing source leaves a truncated buffer", PF, M.replace_stmt("Cache.filter", lambda st: isinstance(st, ast.While),
+        "while current := list(islice(self._iter, n_slice)):\n    self._cache.extend(current)\n    yield from current"), "C04.R6"),
     ("save shrinks only one of the aligned lists", "coba/environments/core.py", M.delete_stmt("Environments.save", M.simple_has("self_params.pop(param_index_in_self)")), "C04.R8"),
     ("catset rewrites the nested row in place", PR, M.replace_expr("EncodeCatRows._encode_collection", "list(row) if isinstance(row, tuple) else copy(row)", "list(row) if isinstance(row, tuple) else row", nth=0), "C04.R3"),
     ("cache complete in finally", PF, M.replace_stmt("Cache.filter", M.simple_has("self._iter = None"), "pass"), "C04.R6") if False else
